@@ -13,9 +13,10 @@ Every access of a table cell in the model is a checked read of the file (`rd`, `
 is checked against the allocated element count (`Res.idx`).  In swap mode the copy holds exactly
 the bytes `[dataOff, size)` of the file, so an offset into the copy is the same offset into the file.
 
-Not modelled: alignment of the table pointers (the tables are 4-byte aligned relative to `ciname[0]`
-only; `12 + desc_len + 40` need not be a multiple of 4), `cionly`, the `cd_tree` contents (not
-touched by the loader apart from the in-place swap).  Core Lean only.
+Alignment: the tables are 4-byte aligned relative to `ciname[0] = buf + 12 + desc_len + 40`; D19j
+makes the reader refuse a descriptor length that is not a multiple of 4 (`MdefHdr.Ok` records
+`dataOff % 4 = 0`).  Not modelled: `cionly`, the `cd_tree` contents (not touched by the loader apart
+from the in-place swap).  Core Lean only.
 -/
 namespace SSVerif.S3file
 
@@ -92,7 +93,8 @@ def mdefHeader (f : File) : Res MdefHdr := do
   let (s, ver) ← get32 s "Failed to read version"
   if toI32 ver > mdefVersion then .reject "File format version is newer than library" else do
   let (s, dl) ← get32 s "Failed to read header length"
-  if toI32 dl < 0 then .reject "Format descriptor truncated" else do
+  -- D19j: the tables are used in place through int16/int32 pointers, the descriptor must keep them aligned
+  if toI32 dl < 0 ∨ (toI32 dl).toNat % 4 ≠ 0 then .reject "Format descriptor truncated or not a multiple of 4 bytes" else do
   let s ← skip s (toI32 dl).toNat "Format descriptor truncated"
   -- m = ckd_calloc(1, sizeof(*m))
   let (s, c0) ← get32 s "Failed to read &m->n_ciphone"
